@@ -185,7 +185,7 @@ def run(ctx):
         if r:
             ctx.ok("C17-R5", "T1 %s  %s" % (s.key, s.detail[:90]), s.loc(), r)
             continue
-        ent = T2.get(s.key)
+        ent = ledger.t2_lookup(T2, s)
         if ent and ledger.t2_match(ent, s)[0]:
             ctx.ok("C17-R5", "T2 %s" % s.key, s.loc(), ent[1])
             continue
